@@ -298,7 +298,7 @@ fn one_history(store: &Arc<FeoxStore>, cfg: &Cfg, seed: u64, hid: u64, explicit:
             barrier.wait();
             for p in ops {
                 let inv = tick();
-                let res = apply(&store, &keys[p.key], &p.op);
+                let res = crate::callwatch::watched(p.op.name(), || apply(&store, &keys[p.key], &p.op));
                 let ret = tick();
                 hub().op_done();
                 out.push((p.key, Event { thread: t, op: p.op, res, inv, ret }));
